@@ -76,9 +76,67 @@ const POOL: &[&str] = &[
     "b\"bytes\"",
     "[1] * 1000",
     "\"x\".join",
+    // the same kinds of values, frozen (loaded from another module): every level takes the frozen code paths
+    "FZ_LIST",
+    "FZ_DICT",
+    "FZ_TUPLE",
+    "FZ_STRUCT",
+    "FZ_FUNC",
+    "FZ_REC(a = 1)",
+    "FZ_EN(\"x\")",
+    "FZ_SET",
+    "FZ_NESTED",
+    "FZ_PARTIAL",
+    "SELF_TUPLE",
+    "SELF_STRUCT",
+    // nesting well below the depth at which rendering overflows the native stack (open finding deep-nesting-native-recursion)
+    "DEEP_LIST",
+    "DEEP_DICT",
+    "FZ_DEEP",
 ];
 
+/// Library module frozen once per process; its exports are self-containing / nested / callable frozen values.
+const HOSTILE_LIB: &str = r#"
+FZ_LIST = [1]
+FZ_LIST.append(FZ_LIST)
+FZ_DICT = {"k": 1}
+FZ_DICT["self"] = FZ_DICT
+FZ_TUPLE = ([], {"d": []}, 3)
+FZ_TUPLE[0].append(FZ_TUPLE)
+FZ_TUPLE[1]["d"].append(FZ_TUPLE[1])
+FZ_STRUCT = struct(a = [], b = "s")
+FZ_STRUCT.a.append(FZ_STRUCT)
+FZ_REC = record(a = int)
+FZ_EN = enum("x", "y")
+FZ_SET = set([1, "a", (2, 3)])
+FZ_NESTED = [[[{"a": ([1, [2]], "é")}]], FZ_REC(a = 5), FZ_EN("y")]
+def FZ_FUNC(*args, **kwargs):
+    return (args, kwargs, FZ_LIST)
+FZ_PARTIAL = partial(FZ_FUNC, FZ_DICT, k = FZ_TUPLE)
+def _deep(n):
+    x = ("leaf",)
+    for i in range(n):
+        x = [x] if i % 3 == 0 else ({"k": x} if i % 3 == 1 else (x, i))
+    return x
+FZ_DEEP = _deep(120)
+"#;
+
+fn hostile_lib() -> &'static starlark::environment::FrozenModule {
+    static L: std::sync::OnceLock<starlark::environment::FrozenModule> = std::sync::OnceLock::new();
+    L.get_or_init(|| sl::run_and_freeze("hostile.star", HOSTILE_LIB, &sl::RunCfg::default(), &[]).1.expect("hostile library must evaluate and freeze"))
+}
+
 const PRELUDE: &str = r#"
+load("hostile.star", "FZ_LIST", "FZ_DICT", "FZ_TUPLE", "FZ_STRUCT", "FZ_FUNC", "FZ_REC", "FZ_EN", "FZ_SET", "FZ_NESTED", "FZ_PARTIAL", "FZ_DEEP")
+DEEP_LIST = []
+DEEP_DICT = {}
+for _i in range(120):
+    DEEP_LIST = [DEEP_LIST, _i]
+    DEEP_DICT = {"k": DEEP_DICT}
+SELF_TUPLE = ([],)
+SELF_TUPLE[0].append(SELF_TUPLE)
+SELF_STRUCT = struct(a = [])
+SELF_STRUCT.a.append(SELF_STRUCT)
 SELF_LIST = [1]
 SELF_LIST.append(SELF_LIST)
 SELF_DICT = {"k": 1}
@@ -101,7 +159,7 @@ emit(_p)
 "#;
 
 /// Receivers for method calls, by type.
-const RECEIVERS: &[&str] = &["\"a-b c\"", "[3, 1, 2]", "{\"a\": 1, \"b\": 2}", "(1, 2)", "set([1, 2])", "7", "2.5", "True", "None", "range(5)", "struct(a = 1)", "REC(a = 1)", "EN(\"x\")", "EN", "REC", "json", "typing", "SELF_LIST", "SELF_DICT", "b\"ab\""];
+const RECEIVERS: &[&str] = &["\"a-b c\"", "[3, 1, 2]", "{\"a\": 1, \"b\": 2}", "(1, 2)", "set([1, 2])", "7", "2.5", "True", "None", "range(5)", "struct(a = 1)", "REC(a = 1)", "EN(\"x\")", "EN", "REC", "json", "typing", "SELF_LIST", "SELF_DICT", "b\"ab\"", "FZ_LIST", "FZ_DICT", "FZ_TUPLE", "FZ_STRUCT", "FZ_SET", "FZ_FUNC", "FZ_PARTIAL"];
 
 fn callables() -> &'static Vec<String> {
     static C: std::sync::OnceLock<Vec<String>> = std::sync::OnceLock::new();
@@ -114,7 +172,7 @@ fn callables() -> &'static Vec<String> {
         for r in RECEIVERS {
             src.push_str(&format!("OUT.append(dir({r}))\n"));
         }
-        let out = sl::run_src_with("dir.star", &src, &sl::RunCfg::default(), &[], |m, _| {
+        let out = sl::run_src_with("dir.star", &src, &sl::RunCfg::default(), &[("hostile.star", hostile_lib())], |m, _| {
             if let Some(l) = m.get("OUT").and_then(starlark::values::list::ListRef::from_value) {
                 for (r, names) in RECEIVERS.iter().zip(l.iter()) {
                     if let Some(names) = starlark::values::list::ListRef::from_value(names) {
@@ -194,10 +252,14 @@ fn run_history(s: &Session, fresh_probe: &[String], r: &mut CaseResult) -> (usiz
     let mut nerr = 0;
     Module::with_temp_heap(|module| {
         let printer = sl::PrintToTx;
+        let mut lib_map: std::collections::HashMap<&str, &starlark::environment::FrozenModule> = std::collections::HashMap::new();
+        lib_map.insert("hostile.star", hostile_lib());
+        let loader = starlark::eval::ReturnFileLoader { modules: &lib_map };
         let mut eval = Evaluator::new(&module);
         eval.set_print_handler(&printer);
+        eval.set_loader(&loader);
         sl::setup_eval(&mut eval, &cfg);
-        let files: Vec<(&str, &str)> = s.steps.iter().map(|(n, t)| (n.as_str(), t.as_str())).chain([("probe.star", PROBE), ("marker.star", "MARKER = [1, 2, 3]\n")]).collect();
+        let files: Vec<(&str, &str)> = s.steps.iter().map(|(n, t)| (n.as_str(), t.as_str())).chain([("probe.star", PROBE), ("marker.star", "MARKER = [1, 2, 3]\n"), ("hostile.star", HOSTILE_LIB)]).collect();
         let mut last_failed = false;
         // a module variable defined before anything can fail
         let _ = eval.eval_module(sl::parse("marker.star", "MARKER = [1, 2, 3]\n", &cfg.dialect).unwrap(), sl::globals());
@@ -257,6 +319,21 @@ fn fresh_probe_tx() -> Vec<String> {
     sl::run_src("probe.star", PROBE, &sl::RunCfg::default(), &[]).tx
 }
 
+/// Values that contain themselves (signature of the open finding `debug-builtin-cyclic-value`).
+fn is_cyclic_pool(v: &str) -> bool {
+    matches!(v, "SELF_LIST" | "SELF_DICT" | "SELF_TUPLE" | "SELF_STRUCT" | "FZ_LIST" | "FZ_DICT" | "FZ_TUPLE" | "FZ_STRUCT" | "FZ_PARTIAL" | "FZ_FUNC")
+}
+
+const EXH_MAGIC: u32 = 0xEEEE_EE07;
+
+/// Enumerated part: every callable x every pool value as the single positional argument.
+fn enumerated_call(idx: usize) -> Option<String> {
+    let cs = callables();
+    let (ci, pi) = (idx / POOL.len(), idx % POOL.len());
+    let c = cs.get(ci)?;
+    Some(format!("emit({c}({}))\n", POOL[pi]))
+}
+
 fn gen_args(ch: &mut Choices) -> String {
     let npos = ch.idx(4);
     let mut parts: Vec<String> = (0..npos).map(|_| (*ch.pick(POOL)).to_owned()).collect();
@@ -282,7 +359,7 @@ fn is_big_count(s: &str) -> bool {
 }
 
 fn is_sized(s: &str) -> bool {
-    s.starts_with('"') || s.starts_with('[') || s.starts_with('(') || s.starts_with("b\"") || s == "SELF_LIST"
+    s.starts_with('"') || s.starts_with('[') || s.starts_with('(') || s.starts_with("b\"") || s == "SELF_LIST" || s == "FZ_LIST" || s == "FZ_TUPLE" || s == "FZ_NESTED" || s == "SELF_TUPLE" || s == "FZ_DEEP" || s == "DEEP_LIST"
 }
 
 /// One ill-typed snippet (a statement) built from the hostile pool.
@@ -374,13 +451,51 @@ impl Prop for C07 {
         vec![("fail_then_ok", 0.25), ("has_error", 0.6)]
     }
     fn render(&self, _ctx: &mut Ctx, ch: &mut Choices) -> String {
-        gen_history(ch).iter().skip(1).map(|(n, s)| format!("# --- {n}\n{s}")).collect::<Vec<_>>().join("")
+        gen_history_or_enumerated(ch).iter().skip(1).map(|(n, s)| format!("# --- {n}\n{s}")).collect::<Vec<_>>().join("")
     }
-    fn run(&self, _ctx: &mut Ctx, ch: &mut Choices) -> CaseResult {
-        let steps = gen_history(ch);
+    fn has_exhaustive(&self) -> bool {
+        true
+    }
+    fn exhaustive(&self, ctx: &mut Ctx, sink: &mut dyn FnMut(CaseResult)) {
+        let n = callables().len() * POOL.len();
+        for i in 0..n {
+            if i % ctx.workers != ctx.worker {
+                continue;
+            }
+            let v = [EXH_MAGIC, i as u32];
+            note_current(&v);
+            let mut r = self.run(ctx, &mut Choices::new(&v));
+            r.replay = v.to_vec();
+            sink(r);
+        }
+    }
+    fn known_probe(&self, _ctx: &mut Ctx, sig: &str) -> Option<(bool, String)> {
+        // each probe runs in its own process (it dies when the finding is still there); reaching the end = repaired
+        let src = match sig {
+            "debug-builtin-cyclic-value" => "x = [1]\nx.append(x)\nemit(len(debug(x)))\n",
+            "deep-nesting-native-recursion" => "x = []\nfor i in range(5000):\n    x = [x]\nemit(len(json.encode(x)))\ny = []\nfor i in range(3000000):\n    y = [y]\nemit(len(repr(y)))\n",
+            _ => return None,
+        };
+        let cfg = sl::RunCfg { max_ticks: 50_000_000, max_heap: 2 << 30, ..Default::default() };
+        let out = sl::run_src("probe.star", src, &cfg, &[]);
+        Some((false, format!("probe completed without a crash: {:?}", out.result.map(|_| ()).map_err(|e| e.msg))))
+    }
+    fn run(&self, ctx: &mut Ctx, ch: &mut Choices) -> CaseResult {
+        let mut steps = gen_history_or_enumerated(ch);
+        // open known findings are excluded by construction (counted), so that the search continues behind them
+        let mut excluded = 0u64;
+        if ctx.is_open("debug-builtin-cyclic-value") {
+            for (_, src) in steps.iter_mut().skip(1) {
+                if src.contains("debug(") && POOL.iter().any(|v| is_cyclic_pool(v) && src.contains(v)) {
+                    *src = "emit(0)\n".to_owned();
+                    excluded += 1;
+                }
+            }
+        }
         let text = steps.iter().skip(1).map(|(n, s)| format!("# --- {n}\n{s}")).collect::<Vec<_>>().join("");
         let mut r = CaseResult::new(text);
         r.evals = 0;
+        r.excluded_known = excluded;
         let fresh = fresh_probe_tx();
         let (fto, nerr) = run_history(&Session { steps: &steps }, &fresh, &mut r);
         if fto > 0 {
@@ -393,6 +508,16 @@ impl Prop for C07 {
         }
         r
     }
+}
+
+fn gen_history_or_enumerated(ch: &mut Choices) -> Vec<(String, String)> {
+    let first = ch.raw();
+    if first == EXH_MAGIC {
+        let idx = ch.raw() as usize;
+        let n = callables().len() * POOL.len();
+        return vec![("prelude.star".to_owned(), PRELUDE.to_owned()), ("call.star".to_owned(), enumerated_call(idx % n.max(1)).unwrap_or_default())];
+    }
+    gen_history(ch)
 }
 
 fn gen_history(ch: &mut Choices) -> Vec<(String, String)> {
@@ -418,7 +543,7 @@ fn gen_history(ch: &mut Choices) -> Vec<(String, String)> {
                                 let v = *ch.pick(POOL);
                                 if is_big_count(v) {
                                     Some("1000")
-                                } else if (is_sized(v) || v.contains("range(") || v.contains("SELF_") || v.contains("* 1000")) && !matches!(v, "[]" | "()" | "\"\"" | "{}") {
+                                } else if (is_sized(v) || v.contains("range(") || v.contains("SELF_") || v.contains("FZ_") || v.contains("* 1000")) && !matches!(v, "[]" | "()" | "\"\"" | "{}") {
                                     // a non-empty sequence substituted next to `* <variable>` would multiply into gigabytes
                                     Some("[]")
                                 } else {
